@@ -217,6 +217,7 @@ where
         }
         let mut counts = vec![0u64; n];
         let mut extra = 0u64;
+        let alias_clone = alias.clone();
         for c in 0..n as u64 {
             mark_call(c);
             let w1 = lattice_word(c, n as u64);
@@ -226,7 +227,9 @@ where
                     vec![Fault { pos: 0, inject: Inject::Word(w1) }, Fault { pos: 1, inject: Inject::Word(lattice_word(j, m2)) }],
                 );
                 rng.budget = 64;
-                match guarded(|| alias.sample(&mut rng)) {
+                // odd columns are sampled through a clone (a clone must be the same sampler)
+                let target = if c % 2 == 1 { &alias_clone } else { &alias };
+                match guarded(|| target.sample(&mut rng)) {
                     Caught::Ok(i) if i < n => counts[i] += 1,
                     Caught::Ok(i) => return Err(("out-of-support".into(), format!("index {i} >= len {n} for {:?}", lits(&ws)))),
                     Caught::Panic { msg, loc } => return Err(("panic-sample".into(), format!("sample() of new({:?}) panicked: {msg} @ {loc}", lits(&ws)))),
